@@ -243,6 +243,37 @@ theorem shake256_inc_eq_spec (chunks : List (List UInt8)) (reqs : List Nat) :
   rw [h.2.2.2.1, h.2.2.2.2.1, h.2.2.2.2.2.1, h.2.2.2.2.2.2.2.1, genF_eq]
   exact SqiProofs.Sponge.incSession_eq_spec Fips202.keccakF 136 (by decide) (by decide) (by decide) 0x1F (by decide) chunks reqs
 
+/-- a whole `shake256_inc_*` session through the **re-extracted** wrappers (init on a fresh allocation with arbitrary contents,
+    one absorb call, finalize, one squeeze call into `h + hoff`), with the re-extracted permutation: the four generated programs
+    terminate and the `outlen` bytes written are FIPS 202 SHAKE256(m) truncated to `outlen`; the rest of `h` is unchanged.
+    (Any chunking / any split: compose `gen_shake256_inc_absorb_eq_model`, `gen_shake256_inc_squeeze_eq_model` with
+    `shake256_inc_eq_spec`.) -/
+theorem gen_shake256_inc_calls_eq_spec (fuel : Nat) (ctx : Fips202.State) (pos i0 i1 i2 : Nat) (m : List UInt8)
+    (h : List UInt8) (hoff outlen : Nat) (hl : hoff + outlen ≤ h.length) (hf : m.length + outlen + 136 < fuel) :
+    ∃ v1 v2 v3 v4,
+      SqiGen.Sponge.shake256_inc_init.run SqiGen.Keccak.keccakF fuel ctx pos i0 = some v1 ∧
+      SqiGen.Sponge.shake256_inc_absorb.run SqiGen.Keccak.keccakF fuel v1.s_inc v1.pos m m.length i1 = some v2 ∧
+      SqiGen.Sponge.shake256_inc_finalize.run SqiGen.Keccak.keccakF fuel v2.s_inc v2.pos = some v3 ∧
+      SqiGen.Sponge.shake256_inc_squeeze.run SqiGen.Keccak.keccakF fuel h hoff outlen v3.s_inc v3.pos i2 = some v4 ∧
+      SqiProofs.SpongeGen.Written h v4.h hoff outlen (Fips202.shake256 m outlen) := by
+  have hspec := shake256_inc_eq_spec [m] [outlen]
+  have hp := extracted_params
+  rw [hp.2.2.2.1, hp.2.2.2.2.1, hp.2.2.2.2.2.1, hp.2.2.2.2.2.2.2.1] at hspec
+  obtain ⟨v2, a1, a2, a3⟩ := gen_shake256_inc_absorb_eq_model SqiGen.Keccak.keccakF fuel incInit m i1 (by decide) (by omega)
+  have fin := (gen_shake_inc_finalize_eq_model SqiGen.Keccak.keccakF fuel (incAbsorb SqiGen.Keccak.keccakF 136 incInit m)).1
+  obtain ⟨v4, s1, s2, _⟩ := gen_shake256_inc_squeeze_eq_model SqiGen.Keccak.keccakF fuel
+    (incFinalize 136 0x1F (incAbsorb SqiGen.Keccak.keccakF 136 incInit m)) (by simp [incFinalize]) h hoff outlen i2 hl (by omega)
+  refine ⟨_, v2, ⟨(incFinalize 136 0x1F (incAbsorb SqiGen.Keccak.keccakF 136 incInit m)).s,
+    (incFinalize 136 0x1F (incAbsorb SqiGen.Keccak.keccakF 136 incInit m)).pos, 136, 0x1F⟩, v4,
+    (gen_shake_inc_init_eq_model SqiGen.Keccak.keccakF fuel ctx pos i0 (by omega)).1, a1, ?_, s1, ?_⟩
+  · rw [a2, a3]; exact fin
+  · have e : (incSession SqiGen.Keccak.keccakF 136 136 136 0x1F [m] [outlen]).1
+        = (incSqueeze SqiGen.Keccak.keccakF 136 (incFinalize 136 0x1F (incAbsorb SqiGen.Keccak.keccakF 136 incInit m)) outlen).1 := by
+      simp [incSession, incSqueezeMany, incAbsorbMany]
+    rw [e] at hspec
+    rw [hspec] at s2
+    simpa using s2
+
 theorem shake128_inc_eq_spec (chunks : List (List UInt8)) (reqs : List Nat) :
     (incSession SqiGen.Keccak.keccakF SqiGen.Keccak.shake128_inc_absorb_rate SqiGen.Keccak.shake128_inc_finalize_rate
       SqiGen.Keccak.shake128_inc_squeeze_rate SqiGen.Keccak.shake128_inc_finalize_domain chunks reqs).1
